@@ -467,7 +467,7 @@ builtin_dirscan(spif_charptr_t param)
                 unsigned long len;
 
                 len = strlen(dp->d_name);
-                if (len < n) {
+                if (len + 1 < n) {
                     strcat((char *) buff, dp->d_name);
                     strcat((char *) buff, " ");
                     n -= len + 1;
